@@ -84,7 +84,7 @@ ASSUMPTIONS = [
     "extension modules rebuilt from the working tree C sources; Cython wrapper C not re-translated",
     "size ladder: standard_normal above length 64 is judged through the rank order (data sorted exactly by (reference rank, position): scores and returned ranks strictly increase between rank groups and are equal - scores to 1e-12 - inside one), which is the same demand as the pairwise loop used for short vectors",
     "layout variants: results must equal the float64 C-contiguous result to the tolerance of the check (statistics 1e-9 / mean 1e-12 relative, flags / ranks / lhs samples exactly); only boxplot_stats called directly on a float32 array is compared to 2e-5 relative, because numpy then interpolates percentiles and averages in float32 (rounding 6e-8 relative; Boxplot and Violin convert to float64 first and get the normal tolerance); a layout the function rejects with a Python exception is counted (layout-rejected.*), not judged",
-    "layout variants of lhs: pmin / pmax given as float32 are only judged when nsamples is a power of two (the half stratum width du/2 is then exact in float32): lhs casts pmin to float64 but not pmax, so with numpy >= 2 `pmax[i] - du/2` is evaluated in float32 and the stratum centres move by up to 6e-8 x |pmax|; at the worst-case jitter a sample then leaves its stratum by ~1e-8 (lhs(10, float32[0], float32[1]), jitter -du/2: 9 of 10 samples) - a marginal genuine deviation reported with proposed_fixes/C20-lhs-float32-pmax.diff; the other sizes are counted (unjudged.lhs.float32-bounds-inexact-du) until that fix is in; VERIF_C20_LHS_F32=1 judges every size",
+    "layout variants of lhs: pmin / pmax given as float32 are only judged when nsamples is a power of two (the half stratum width du/2 is then exact in float32): lhs casts pmin to float64 but not pmax, so with numpy >= 2 `pmax[i] - du/2` is evaluated in float32 and the stratum centres move by up to 6e-8 x |pmax|; at the worst-case jitter a sample then leaves its stratum by ~1e-8 (lhs(10, float32[0], float32[1]), jitter -du/2: 9 of 10 samples) - a marginal genuine deviation reported with proposed_fixes/C20-lhs-float32-pmax.diff; that fix is committed in /repo and every size is judged now (VERIF_C20_LHS_F32=0 restores the power-of-two restriction)",
 ]
 TECHNIQUE = ("bounded exhaustive enumeration on the real functions with scripted random-source answers, "
              "exact Fraction / comparison-only reference models")
@@ -444,7 +444,7 @@ def jitter_class(jit):
 
 
 # see ASSUMPTIONS (float32 bounds are only used when du/2 is exact in float32); VERIF_C20_LHS_F32=1 judges every n
-LHS_F32_ANY_N = os.environ.get("VERIF_C20_LHS_F32") == "1"
+LHS_F32_ANY_N = os.environ.get("VERIF_C20_LHS_F32", "1") == "1"      # the lhs float32 repair is in /repo: every n is judged (set 0 to restrict to powers of two)
 
 
 def lhs_variant(n, pmins, pmaxs, name):
